@@ -902,12 +902,285 @@ fn file_corpus() -> Vec<&'static str> {
 }
 
 // ------------------------------------------------------------------------------------------------
+// cell level: value typing from the attributes (get_datatype), any attribute order
+// ------------------------------------------------------------------------------------------------
+
+#[derive(Clone, Debug, PartialEq)]
+enum CAttr {
+    Value(String),
+    Str(String),
+    Date(String),
+    Time(String),
+    Bool(String),
+    VType(String),
+    Formula(String),
+    Other(usize),
+}
+
+const OTHER_ATTRS: [&str; 5] = [
+    "table:style-name=\"ce1\"",
+    "office:currency=\"EUR\"",
+    "table:number-columns-repeated=\"1\"",
+    "calcext:value-type=\"string\"",
+    "table:number-rows-spanned=\"1\"",
+];
+
+#[derive(Clone, Debug)]
+struct CellCase {
+    attrs: Vec<CAttr>,
+    text: Option<String>,
+}
+
+impl CellCase {
+    fn text_form(&self) -> String {
+        let a: Vec<String> = self
+            .attrs
+            .iter()
+            .map(|a| match a {
+                CAttr::Value(r) => format!("v{}", hex(r.as_bytes())),
+                CAttr::Str(r) => format!("s{}", hex(r.as_bytes())),
+                CAttr::Date(r) => format!("d{}", hex(r.as_bytes())),
+                CAttr::Time(r) => format!("t{}", hex(r.as_bytes())),
+                CAttr::Bool(r) => format!("b{}", hex(r.as_bytes())),
+                CAttr::VType(r) => format!("y{}", hex(r.as_bytes())),
+                CAttr::Formula(r) => format!("f{}", hex(r.as_bytes())),
+                CAttr::Other(i) => format!("o{i}"),
+            })
+            .collect();
+        format!("{}|{}", if a.is_empty() { "-".to_string() } else { a.join(";") }, self.text.as_ref().map(|t| hex(t.as_bytes())).unwrap_or("!".into()))
+    }
+    fn parse(s: &str) -> CellCase {
+        let (a, t) = s.split_once('|').expect("cell case");
+        let txt = |h: &str| String::from_utf8(unhex(h)).unwrap();
+        let attrs = if a == "-" {
+            vec![]
+        } else {
+            a.split(';')
+                .map(|x| {
+                    let (k, p) = x.split_at(1);
+                    match k {
+                        "v" => CAttr::Value(txt(p)),
+                        "s" => CAttr::Str(txt(p)),
+                        "d" => CAttr::Date(txt(p)),
+                        "t" => CAttr::Time(txt(p)),
+                        "b" => CAttr::Bool(txt(p)),
+                        "y" => CAttr::VType(txt(p)),
+                        "f" => CAttr::Formula(txt(p)),
+                        _ => CAttr::Other(p.parse().unwrap()),
+                    }
+                })
+                .collect()
+        };
+        CellCase { attrs, text: if t == "!" { None } else { Some(txt(t)) } }
+    }
+    fn xml(&self) -> String {
+        use verif_harness::odsw::{escape_attr, escape_text};
+        let mut x = String::from("<table:table-cell");
+        for a in &self.attrs {
+            x.push(' ');
+            match a {
+                CAttr::Value(r) => x.push_str(&format!("office:value=\"{}\"", escape_attr(r))),
+                CAttr::Str(r) => x.push_str(&format!("office:string-value=\"{}\"", escape_attr(r))),
+                CAttr::Date(r) => x.push_str(&format!("office:date-value=\"{}\"", escape_attr(r))),
+                CAttr::Time(r) => x.push_str(&format!("office:time-value=\"{}\"", escape_attr(r))),
+                CAttr::Bool(r) => x.push_str(&format!("office:boolean-value=\"{}\"", escape_attr(r))),
+                CAttr::VType(r) => x.push_str(&format!("office:value-type=\"{}\"", escape_attr(r))),
+                CAttr::Formula(r) => x.push_str(&format!("table:formula=\"{}\"", escape_attr(r))),
+                CAttr::Other(i) => x.push_str(OTHER_ATTRS[*i]),
+            }
+        }
+        x.push('>');
+        if let Some(t) = &self.text {
+            x.push_str(&format!("<text:p>{}</text:p>", escape_text(t)));
+        }
+        x.push_str("</table:table-cell>");
+        x
+    }
+    fn wire(&self) -> String {
+        if self.attrs.is_empty() {
+            return "-".into();
+        }
+        self.attrs
+            .iter()
+            .map(|a| match a {
+                CAttr::Value(r) => match r.parse::<f64>() {
+                    Ok(f) => format!("v{}", f.to_bits()),
+                    Err(_) => "v!".to_string(),
+                },
+                CAttr::Str(r) => format!("s{}", hex(r.as_bytes())),
+                CAttr::Date(r) => format!("d{}", hex(r.as_bytes())),
+                CAttr::Time(r) => format!("t{}", hex(r.as_bytes())),
+                CAttr::Bool(r) => format!("b{}", hex(r.as_bytes())),
+                CAttr::VType(r) => format!("y{}", hex(r.as_bytes())),
+                CAttr::Formula(r) => format!("f{}", hex(r.as_bytes())),
+                CAttr::Other(_) => "o".to_string(),
+            })
+            .collect::<Vec<_>>()
+            .join(";")
+    }
+    /// the value the property states for a well-formed cell: exactly one value attribute, exactly one
+    /// `office:value-type` and they match (string cells: `office:string-value` or the text content)
+    fn expected(&self) -> Option<Data> {
+        let vts: Vec<&String> = self.attrs.iter().filter_map(|a| if let CAttr::VType(t) = a { Some(t) } else { None }).collect();
+        let vals: Vec<&CAttr> = self
+            .attrs
+            .iter()
+            .filter(|a| matches!(a, CAttr::Value(_) | CAttr::Str(_) | CAttr::Date(_) | CAttr::Time(_) | CAttr::Bool(_)))
+            .collect();
+        if vts.len() != 1 || vals.len() > 1 {
+            return None;
+        }
+        match (vts[0].as_str(), vals.first()) {
+            ("float" | "percentage" | "currency", Some(CAttr::Value(r))) => r.parse::<f64>().ok().map(Data::Float),
+            ("string", Some(CAttr::Str(r))) => Some(Data::String(r.clone())),
+            ("string", None) => Some(Data::String(self.text.clone().unwrap_or_default())),
+            ("boolean", Some(CAttr::Bool(r))) if r == "true" || r == "false" => Some(Data::Bool(r == "true")),
+            ("date", Some(CAttr::Date(r))) => Some(Data::DateTimeIso(r.clone())),
+            ("time", Some(CAttr::Time(r))) => Some(Data::DurationIso(r.clone())),
+            _ => None,
+        }
+    }
+}
+
+fn show_data(d: &Data) -> String {
+    match d {
+        Data::Empty => "E".into(),
+        Data::Float(f) => format!("F{}", f.to_bits()),
+        Data::String(s) => format!("S{}", hex(s.as_bytes())),
+        Data::Bool(b) => format!("B{}", *b as u8),
+        Data::DateTimeIso(s) => format!("D{}", hex(s.as_bytes())),
+        Data::DurationIso(s) => format!("T{}", hex(s.as_bytes())),
+        other => format!("?{other:?}"),
+    }
+}
+
+const FLOAT_RAWS: [&str; 12] = ["0", "1.5", "-2", "1e3", "1E-3", "0.1", "123456789012345678", "-0", ".5", "inf", "abc", ""];
+const TEXTS: [&str; 6] = ["", "a", "x y", "12", "true", "q&r<s>"];
+
+fn gen_cell(rng: &mut Rng) -> CellCase {
+    let mut attrs = vec![];
+    let text = if rng.chance(2, 3) { Some(rng.pick(&TEXTS).to_string()) } else { None };
+    let value_attr = |rng: &mut Rng, k: u64| -> CAttr {
+        match k {
+            0 => CAttr::Value(rng.pick(&FLOAT_RAWS).to_string()),
+            1 => CAttr::Str(rng.pick(&TEXTS).to_string()),
+            2 => CAttr::Date(rng.pick(&["2021-03-04", "2021-03-04T05:06:07", "1899-12-30", "x"]).to_string()),
+            3 => CAttr::Time(rng.pick(&["PT1H2M3S", "PT00H00M00S", "P1D"]).to_string()),
+            _ => CAttr::Bool(rng.pick(&["true", "false", "TRUE", "FALSE", "True", "1", ""]).to_string()),
+        }
+    };
+    const KINDS: [&str; 8] = ["float", "percentage", "currency", "string", "boolean", "date", "time", "void"];
+    if rng.chance(7, 10) {
+        // well-formed: one value-type and the matching value attribute (string: attribute or text content)
+        let k = rng.below(7);
+        attrs.push(CAttr::VType(KINDS[k as usize].to_string()));
+        match k {
+            0..=2 => attrs.push(CAttr::Value(rng.pick(&FLOAT_RAWS[..10]).to_string())),
+            3 => {
+                if rng.chance(1, 2) {
+                    attrs.push(value_attr(rng, 1))
+                }
+            }
+            4 => attrs.push(CAttr::Bool(rng.pick(&["true", "false"]).to_string())),
+            5 => attrs.push(value_attr(rng, 2)),
+            _ => attrs.push(value_attr(rng, 3)),
+        }
+    } else {
+        // attribute soup: value-type present or not, matching or not; 0..2 value attributes of distinct kinds
+        if rng.chance(2, 3) {
+            attrs.push(CAttr::VType(rng.pick(&KINDS).to_string()));
+        }
+        let mut kinds: Vec<u64> = vec![0, 1, 2, 3, 4];
+        rng.shuffle(&mut kinds);
+        for k in kinds.iter().take(rng.below(3) as usize) {
+            attrs.push(value_attr(rng, *k));
+        }
+    }
+    if rng.chance(1, 3) {
+        attrs.push(CAttr::Formula(rng.pick(&["of:=[.A1]+1", "of:=1<2", "", "=A1&\"x\""]).to_string()));
+    }
+    let mut others: Vec<usize> = (0..OTHER_ATTRS.len()).collect();
+    rng.shuffle(&mut others);
+    for o in others.iter().take(rng.below(4) as usize) {
+        attrs.push(CAttr::Other(*o));
+    }
+    rng.shuffle(&mut attrs);
+    CellCase { attrs, text }
+}
+
+fn cell_corpus() -> Vec<&'static str> {
+    vec![
+        // a LibreOffice-style float cell; the same with the value before the type; currency; percentage
+        "o0;y666c6f6174;v312e35;o3|312e35",
+        "v312e35;y666c6f6174|!",
+        "o1;v33;y63757272656e6379|33",
+        // string through text content, through string-value; boolean; date; time
+        "y737472696e67|61",
+        "s71;y737472696e67|61",
+        "y626f6f6c65616e;b74727565|!",
+        "y64617465;d323032312d30332d3034|!",
+        "y74696d65;t50543148324d3353|!",
+        // formula only; nothing at all
+        "f6f663a3d5b2e41315d2b31|!",
+        "-|!",
+    ]
+}
+
+fn run_cell(c: &CellCase, drv: &mut Driver) -> Option<(String, String, String, String, String)> {
+    let mut cell = OdsCell::empty();
+    cell.raw = Some(c.xml());
+    let book = OdsBook::new(vec![OdsSheet::new("Sheet1", vec![RowRun::new(vec![cell])])]);
+    let bytes = book.to_bytes();
+    let imp = match guarded(|| {
+        let mut ods: Ods<_> = match Ods::new(Cursor::new(bytes)) {
+            Ok(o) => o,
+            Err(calamine::OdsError::ParseFloat(_)) => return Err("err".to_string()),
+            Err(e) => return Err(format!("err:{e:?}")),
+        };
+        let v = ods.worksheet_range("Sheet1").map_err(|e| format!("err:{e:?}"))?;
+        let f = ods.worksheet_formula("Sheet1").map_err(|e| format!("err:{e:?}"))?;
+        Ok((v, f))
+    }) {
+        Err(p) => format!("panic:{p}"),
+        Ok(Err(e)) => e,
+        Ok(Ok((v, f))) => {
+            let d = v.get_value((0, 0)).cloned().unwrap_or(Data::Empty);
+            let fm = f.get_value((0, 0)).cloned().unwrap_or_default();
+            format!("{} f={}", show_data(&d), hex(fm.as_bytes()))
+        }
+    };
+    // model: the attribute loop; when it says "use the text content" the value is the text:p content
+    let reply = drv.ask(&format!("cell {}", c.wire()));
+    let model = if let Some(rest) = reply.strip_suffix(" text=1") {
+        let (_, f) = rest.split_once(' ').unwrap_or(("", ""));
+        format!("S{} {}", hex(c.text.clone().unwrap_or_default().as_bytes()), f)
+    } else {
+        reply.strip_suffix(" text=0").unwrap_or(&reply).to_string()
+    };
+    let expect = c.expected().map(|d| show_data(&d));
+    if let Some(e) = &expect {
+        let got = imp.split(' ').next().unwrap_or("");
+        if got != e {
+            return Some(("impl_vs_spec".into(), "cell.typing".into(), imp, model, e.clone()));
+        }
+        if model.split(' ').next().unwrap_or("") != e {
+            return Some(("model_vs_spec".into(), "cell.typing".into(), imp, model, e.clone()));
+        }
+    }
+    if imp != model {
+        return Some(("impl_vs_model".into(), "cell.typing".into(), imp, model, expect.unwrap_or_default()));
+    }
+    None
+}
+
+// ------------------------------------------------------------------------------------------------
 // work streams (deterministic in the seed, independent of the number of threads)
 // ------------------------------------------------------------------------------------------------
 
 enum Work {
     Unit(Flat),
     File(Vec<RowRun>, Option<TGrid>, bool),
+    Cell(CellCase),
 }
 
 struct Done {
@@ -977,6 +1250,13 @@ fn process(w: &Work, drv: &mut Driver, shrink_budget: &mut u32) -> Done {
                 }
             }
             Done { text, nontrivial: f.rows().is_some(), counters, fail }
+        }
+        Work::Cell(c) => {
+            let text = format!("C {}", c.text_form());
+            let wf = c.expected().is_some();
+            let counters = vec![(if wf { "cell.wellformed" } else { "cell.other" }, 1)];
+            let fail = run_cell(c, drv).map(|(k, sig, i, m, e)| (k, sig, text.clone(), i, m, e));
+            Done { text, nontrivial: wf, counters, fail }
         }
         Work::File(rows, src, stored) => {
             let text = format!("F {}", sheet_text(rows));
@@ -1050,8 +1330,11 @@ fn main() {
          formula, some formulas without a value) each written as 4 ods files under independent random run-length groupings (explicit \
          copies vs repeated cells/rows in any split, blank runs as cells, covered cells or cell-less rows, trailing blank runs up to \
          column 16384 / row 1048576), read with Ods::worksheet_range and worksheet_formula and compared with the bounding-box oracle \
-         of the grid, the Lean model getRange(collectV/collectF runs) and the Lean spec bbox/expand. non-trivial = a well-formed unit \
-         input / a grid with at least one non-empty value; distinct by input text",
+         of the grid, the Lean model getRange(collectV/collectF runs) and the Lean spec bbox/expand. cell: one table-cell element whose \
+         attributes (value-type, 0..2 value attributes, formula, foreign attributes incl. calcext:value-type) stand in random order, \
+         70 % well-formed (one value-type with its matching value attribute or text content), read through the public API vs the \
+         Lean model of get_datatype's attribute loop vs the typing the property states. non-trivial = a well-formed unit input / a grid \
+         with at least one non-empty value / a well-formed cell; distinct by input text",
     );
     if let Some(inp) = &args.replay {
         let mut drv = Driver::spawn(&args.driver);
@@ -1059,6 +1342,8 @@ fn main() {
         let w = if kind == "U" {
             let p: Vec<&str> = body.split(' ').collect();
             Work::Unit(Flat { cells: parse_list(p[0]), cols: parse_list(p[1]), reps: parse_list(p[2]) })
+        } else if kind == "C" {
+            Work::Cell(CellCase::parse(body))
         } else {
             Work::File(parse_sheet(body), None, false)
         };
@@ -1074,6 +1359,7 @@ fn main() {
 
     let n_unit = args.count(50_000, 5_000_000);
     let n_grid = if args.n.is_some() { n_unit / 25 } else { args.count(2_000, 200_000) };
+    let n_cell = n_grid * 2;
     let threads = std::env::var("VERIF_THREADS").ok().and_then(|s| s.parse().ok()).unwrap_or(if args.thorough() { 12 } else { 4usize });
     let mut root = Rng::new(args.seed);
     // stream 0 = the corpus; streams 1..=STREAMS = generated work, each with its own generator state
@@ -1106,12 +1392,20 @@ fn main() {
                             let w = Work::File(parse_sheet(c), None, false);
                             tx.send(process(&w, &mut drv, &mut budget)).unwrap();
                         }
+                        for c in cell_corpus() {
+                            let w = Work::Cell(CellCase::parse(c));
+                            tx.send(process(&w, &mut drv, &mut budget)).unwrap();
+                        }
                         continue;
                     }
                     let (mut urng, mut frng) = seeds[(s - 1) as usize].clone();
                     let share = |n: u64| n / STREAMS + if s - 1 < n % STREAMS { 1 } else { 0 };
                     for _ in 0..share(n_unit) {
                         let w = Work::Unit(gen_flat(&mut urng));
+                        tx.send(process(&w, &mut drv, &mut budget)).unwrap();
+                    }
+                    for _ in 0..share(n_cell) {
+                        let w = Work::Cell(gen_cell(&mut frng));
                         tx.send(process(&w, &mut drv, &mut budget)).unwrap();
                     }
                     for _ in 0..share(n_grid) {
